@@ -147,3 +147,24 @@ mutant('C11-trapz-back', 'C11', 'R11.l', OMD + 'NonOverlappingFreelyJointedChain
 mutant('C11-singlesite', 'C11', 'R11.d', OMD + 'SingleSite.py', 'self.value = np.ones_like(k)', 'self.value = np.zeros_like(k)')
 twin('C11-twin-gauss', 'C11', OMD + 'Gaussian.py', '(1 - E*E - 2*E/N + (2*E**(N+1))/N)/((1-E)**2.0)', '(1 - E**2 - 2*E/N + 2*E*E**N/N)/(1 - 2*E + E*E)')
 twin('C11-twin-ring-j', 'C11', OMD + 'GaussianRing.py', "            j = 0\n            self.value += np.exp(-ss*kk*abs(i-j)*(self.length-abs(i-j))/(6.0*self.length))", "            self.value += np.exp(-ss*kk*i*(self.length-i)/(6.0*self.length))")
+
+UCF = 'pyPRISM/util/UnitConverter.py'
+mutant('C17-coulomb', 'C17', 'R17.u', UCF, ".to('degC')", ".to('C')")
+mutant('C17-no-normalise', 'C17', 'R17.n', UCF, "return new_value.to('dimensionless')", "return new_value")
+mutant('C17-kelvin-no-NA', 'C17', 'R17.u', UCF, "            new_value /= self.pint('N_A')\n", "")
+mutant('C17-conc-d2', 'C17', 'R17.u', UCF, "new_value = density/(self.d**3.0)/self.pint('N_A')", "new_value = density/(self.d**2.0)/self.pint('N_A')")
+mutant('C17-conc-times-NA', 'C17', 'R17.u', UCF, "new_value = density/(self.d**3.0)/self.pint('N_A')", "new_value = density/(self.d**3.0)*self.pint('N_A')")
+mutant('C17-volfrac-radius', 'C17', 'R17.d', UCF, "(diameter/2.0)**(3.0)", "(diameter)**(3.0)")
+mutant('C17-invnm-wrong-unit', 'C17', 'R17.d', UCF, ".to('nanometer^-1')", ".to('angstrom^-1')")
+mutant('C17-kelvin-wrong-const', 'C17', 'R17.u', UCF, "(temperature*self.e)/self.pint('boltzmann_constant')", "(temperature*self.e)/self.pint('planck_constant')")
+twin('C17-twin-order', 'C17', UCF, "new_value = wavenumber*(1.0/self.d)", "new_value = wavenumber/self.d")
+
+mutant('C04-literal-label', 'C04', 'R04.c', 'pyPRISM/calculate/chi.py', "C_AA = PRISM.directCorr[t1,t1]", "C_AA = PRISM.directCorr['A','A']")
+mutant('C04-literal-index', 'C04', 'R04.c', 'pyPRISM/calculate/second_virial.py', "B2[t1,t2] = - 0.5 * PRISM.totalCorr[t1,t2][0]", "B2[t1,t2] = - 0.5 * PRISM.totalCorr.data[:,0,1][0]")
+mutant('C04-asym-table', 'C04', 'R04.b', 'pyPRISM/calculate/chi.py', "chi = PairTable(name='chi',types=PRISM.sys.types)", "chi = PairTable(name='chi',types=PRISM.sys.types,symmetric=False)")
+mutant('C04-potential-offset', 'C04', 'R04.e', 'pyPRISM/potential/LennardJones.py', "self.funk  = lambda r,s: 4 * epsilon * ((s/r)**(12.0) - (s/r)**(6.0))", "self.funk  = lambda r,s: 4 * epsilon * ((s/r)**(12.0) - (s/r)**(6.0)) + 1.0")
+mutant('C04-high-unscaled', 'C04', 'R04.e', 'pyPRISM/potential/HardSphere.py', "np.where(r>sigma,0.0,high_value)", "np.where(r>sigma,0.0,1e6)")
+mutant('C04-sf-kT', 'C04', 'R04.k', 'pyPRISM/calculate/structure_factor.py', "    return structureFactor", "    return structureFactor*PRISM.sys.kT")
+mutant('C04-pmf-nokT', 'C04', 'R04.k', 'pyPRISM/calculate/pmf.py', 'rdf = -1.0 * PRISM.sys.kT * np.log(rdf.data)', 'rdf = -1.0 * np.log(rdf.data)')
+mutant('C04-double-kT', 'C04', 'R04.k', 'pyPRISM/core/PRISM.py', "                self.sys.closure[t1,t2].potential = U.calculate(self.sys.domain.r) / self.sys.kT\n            elif", "                self.sys.closure[t1,t2].potential = U.calculate(self.sys.domain.r) / self.sys.kT / self.sys.kT\n            elif")
+mutant('C04-site-asym', 'C04', 'R04.a', 'pyPRISM/core/Density.py', 'self.site[t1,t2] = [rho1 + rho2]', 'self.site[t1,t2] = [rho1 + 2*rho2]')
